@@ -69,6 +69,7 @@ func suiteJSON(c *Ctx) {
 		}
 	}
 	jsonSingleColumn(c)
+	jsonExportAcrossHandles(c)
 	jsonBloomDense(c)
 	jsonProbes(c)
 }
@@ -126,6 +127,30 @@ func jsonCase(c *Ctx, k eqKind, variant int) {
 	c.op("Export." + k.name)
 	if err != nil {
 		c.fail([]string{"C10"}, k.name+"-export-fails", err.Error(), replay)
+		return
+	}
+	// a document is a snapshot: in a third of the cases the exporter moves on before the document
+	// is imported; the copy must be the state at export time, whatever the exporter holds now
+	if c.rng.Intn(3) == 0 {
+		sa0, _ := k.absStr(a)
+		qa0 := jsonQueries(k.name, a)
+		later := append(randHist(c), 7, 8, 9)
+		k.feed(c, a, later)
+		var b0 interface{}
+		var ierr0 error
+		res0 := safely(func() { b0, ierr0 = k.imp(c, doc) })
+		c.op("Import-stale-snapshot." + k.name)
+		if res0.panicked || ierr0 != nil || b0 == nil {
+			c.fail([]string{"C10"}, k.name+"-import-fails", fmt.Sprintf("%s: Import of an exported document failed: %v %v", k.name, res0.panicVal, ierr0), replay)
+			return
+		}
+		sb0, _ := k.absStr(b0)
+		if sb0 != sa0 || jsonQueries(k.name, b0) != qa0 {
+			replay["later_updates_of_the_exporter"] = later
+			replay["exported_state"], replay["copy"] = sa0, sb0
+			c.fail([]string{"C10", "C19"}, k.name+"-import-not-the-snapshot", fmt.Sprintf("%s: the exporter was updated after Export; the imported copy is not the exported state", k.name), replay)
+		}
+		c.branch("stale-snapshot")
 		return
 	}
 	var dumpBefore string
@@ -274,4 +299,113 @@ func jsonProbes(c *Ctx) {
 			c.note("HLL redis import with 8192 registers works (finding D26 not reproduced)")
 		}
 	}
+}
+
+// suite "jsonprefix": C18, JSON half, for ALL ten variants (suite persist covers the five in-memory
+// ones together with their binary images): Import of every strict prefix of an exported document -
+// the empty one included - must return an error and must not panic.  Redis variants import under
+// new keys and in place.
+func init() { register("jsonprefix", suiteJSONPrefix) }
+
+func suiteJSONPrefix(c *Ctx) {
+	c.rep.Rule = "case = one reachable state of one of the 10 variants, exported; every strict prefix of the document (every k-th byte for documents over 1500 bytes) is offered to Import of a fresh instance (Redis: under new keys); non-trivial = document of a non-empty structure; distinct by (kind, document)"
+	kinds := []eqKind{eqCMS(false), eqCMS(true), eqHLL(false), eqHLL(true), eqBloom(false), eqBloom(true), eqCuckoo(false), eqCuckoo(true), eqTopK(false), eqTopK(true)}
+	rounds := c.scale(3, 20)
+	for r := 0; r < rounds; r++ {
+		for _, k := range kinds {
+			if k.redis {
+				c.mr.FlushAll()
+			}
+			a := k.build(c, 0)
+			if a == nil {
+				continue
+			}
+			c.rep.Cases++
+			hist := randHist(c)
+			k.feed(c, a, hist)
+			doc, err := k.export(a)
+			if err != nil {
+				continue
+			}
+			step := 1
+			if len(doc) > 1500 {
+				step = len(doc) / 750
+			}
+			for cut := 0; cut < len(doc); cut += step {
+				var ierr error
+				var b interface{}
+				res := safely(func() { b, ierr = k.imp(c, doc[:cut]) })
+				c.rep.Ops["Import.prefix."+k.name]++
+				if res.panicked || ierr == nil {
+					c.fail([]string{"C18"}, k.name+"-json-prefix", fmt.Sprintf("%s: Import of the %d-byte prefix of a %d-byte document: panic=%q err=%v", k.name, cut, len(doc), res.panicVal, ierr),
+						map[string]interface{}{"kind": k.name, "history": hist, "doc": string(doc), "cut": cut})
+					break
+				}
+				_ = b
+			}
+			if len(hist) > 0 {
+				c.nontrivial(k.name + string(doc))
+			}
+			if r == 0 {
+				c.sample(map[string]interface{}{"kind": k.name, "json_bytes": len(doc)})
+			}
+		}
+	}
+}
+
+// jsonExportAcrossHandles: Export reads the structure, not what this handle last saw.  Redis kinds:
+// export through handle A, update through a second handle B attached from the metadata key, export
+// through A again: the second document must describe the updated structure (= B's export), and its
+// import must answer like B.
+func jsonExportAcrossHandles(c *Ctx) {
+	rounds := c.scale(4, 25)
+	for r := 0; r < rounds; r++ {
+		for _, k := range raKinds() {
+			kk := k
+			c.mr.FlushAll()
+			a, mk := kk.create(c)
+			if a == nil {
+				continue
+			}
+			c.rep.Cases++
+			kk.eq.feed(c, a, randHist(c))
+			if _, err := kk.eq.export(a); err != nil {
+				continue
+			}
+			b, err := kk.attach(mk)
+			if err != nil || b == nil {
+				continue
+			}
+			more := append(randHist(c), 1, 2, 3, 4, 5)
+			kk.eq.feed(c, b, more)
+			docA, e1 := kk.eq.export(a)
+			docB, e2 := kk.eq.export(b)
+			c.op("Export-after-update-through-other-handle." + kk.name)
+			if e1 != nil || e2 != nil {
+				continue
+			}
+			replay := map[string]interface{}{"kind": kk.name, "updates_through_second_handle": more}
+			sa, sb := jsonDocState(kk.eq, c, docA), jsonDocState(kk.eq, c, docB)
+			if sa == "" || sb == "" {
+				continue
+			}
+			if sa != sb {
+				replay["export_through_first_handle"], replay["export_through_second_handle"] = sa, sb
+				c.fail([]string{"C10", "C09"}, kk.eq.name+"-export-stale-across-handles", fmt.Sprintf("%s: after updates through a second handle, Export through the first handle does not describe the current structure", kk.name), replay)
+			}
+			c.branch("export-across-handles")
+		}
+	}
+}
+
+// jsonDocState: canonical state of the structure a document describes (through a fresh import)
+func jsonDocState(k eqKind, c *Ctx, doc []byte) string {
+	var o interface{}
+	var err error
+	res := safely(func() { o, err = k.imp(c, doc) })
+	if res.panicked || err != nil || o == nil {
+		return ""
+	}
+	s, _ := k.absStr(o)
+	return s + "|" + jsonQueries(k.name, o)
 }
